@@ -37,6 +37,21 @@ func checkC08(c *Ctx, r *Report) {
 		c08Client(c, r, ci, false)
 	}
 	r.floor("R8.2", 1)
+	// R8.6: the timeouts and functions an exchange relies on are usable values, and configured
+	// values reach the client
+	cfgStores(c, r, "R8.6", true, true)
+	cfgPassThrough(c, r, "R8.6", func(f *types.Var) bool {
+		_, isSig := f.Type().Underlying().(*types.Signature)
+		return isDuration(f.Type()) || isSig
+	})
+	r.floor("R8.6", 12)
+	// R8.7: "not connected" stays observable: the transport field only ever holds a connection whose
+	// dial succeeded
+	connectStores(c, r, "R8.7")
+	r.floor("R8.7", 1)
+	// R8.8: never panics: the installed reply functions cannot fail on any reply bytes
+	installedNoPanic(c, r, "R8.8")
+	r.floor("R8.8", 4)
 	r.assumption("a serial port Read returns in finite time (no deadline API on io.ReadWriteCloser)")
 	r.assumption("context contract: ctx.Err() is non-nil once ctx.Done() is closed; user hooks and user-supplied parse/recogniser functions return")
 	r.assumption("io.Reader contract 0 <= n <= len(p)")
